@@ -310,6 +310,32 @@ def entry_point_flags(make, call):
     return sorted(set(out))
 
 
+def gym_registrations(benchmarks=("tiny", "tiny-small", "small-gen")):
+    """the registered gymnasium ids `<Name>[PO][2D][VA]-v0`: PO = partially observable, 2D = 2-D observations, VA =
+    parameterised actions (the naming scheme of nasim/__init__.py); each id must build the benchmark of that name in
+    exactly those modes.  Returns [(property, what)]."""
+    import gymnasium as gym
+    import nasim  # noqa: F401  (registers the ids)
+    out = []
+    for b in benchmarks:
+        base = "".join(g.capitalize() for g in b.split("-"))
+        for fo in (True, False):
+            for d2 in (False, True):
+                for va in (False, True):
+                    gid = base + ("" if fo else "PO") + ("2D" if d2 else "") + ("VA" if va else "") + "-v0"
+                    try:
+                        env = gym.make(gid).unwrapped
+                    except Exception as e:
+                        out.append(("C10", f"gymnasium.make('{gid}') raises {type(e).__name__}"))
+                        continue
+                    facts = [("C08", "fully_obs", bool(env.fully_obs), fo), ("C09", "flat_obs", bool(env.flat_obs), not d2),
+                             ("C11", "flat_actions", bool(env.flat_actions), not va)]
+                    for own, name, got, want in facts:
+                        if got != want:
+                            out.append((own, f"gymnasium.make('{gid}') builds an environment with {name} = {got}"))
+    return sorted(set(out))
+
+
 def raised_by_implementation(exc):
     """True when the innermost frame of the exception lies in $NASIM_REPO/nasim (the implementation
     raised on an input the harness considers valid) rather than in the harness itself"""
